@@ -166,13 +166,15 @@ theorem unpack_pack (reg : Registry) (limit cap0 : Nat) (m : Msg) (bs rest : Byt
       have c3 : ¬ ((if cap0 < 4 + 1 + m.pipe.length + p.length - 4 then 4 + 1 + m.pipe.length + p.length - 4 else cap0) < 1) := by
         split <;> omega
       simp only [c3, if_false]
+      unfold unpackXfer
       have e1 : (m.pipe.length % 256).toUInt8.toNat = m.pipe.length := toUInt8_toNat _ (by omega)
-      rw [e1]
+      simp only [e1]
       have c4 : ¬ ((if cap0 < 4 + 1 + m.pipe.length + p.length - 4 then 4 + 1 + m.pipe.length + p.length - 4 else cap0) < m.pipe.length) := by
         split <;> omega
       simp only [c4, if_false]
       rw [take?_append m.pipe _ _ rfl]
       simp only [append_ok reg m.pipe hpl hw.pipeReg]
+      unfold unpackTail
       have c5 : ¬ (4 + 1 + m.pipe.length + p.length - 4 < 1 + m.pipe.length) := by omega
       simp only [c5, if_false]
       rw [take?_append p rest _ (by omega)]
